@@ -137,7 +137,13 @@ pub fn jobs_for(prop: &str) -> Vec<Job> {
             v.extend(conc_all());
             v
         }
-        "C03" => conc_all(),
+        "C03" => {
+            let mut v = conc_all();
+            // one of two overlapping requests is served by a server in another process
+            v.push(Job { name: "conc-sqlite-http-xproc".into(), kind: JobKind::ConcXproc { entry: Entry::Http }, quick: 1600, thorough: 40_000 });
+            v.push(Job { name: "conc-sqlite-lib-xproc".into(), kind: JobKind::ConcXproc { entry: Entry::Lib }, quick: 1600, thorough: 40_000 });
+            v
+        }
         "C05" => fault_all(),
         "C04" => {
             let mut v = crash_all();
